@@ -189,6 +189,70 @@ def trace_validate(ctx, n):
 INVS = ["IndependentOfName", "NameIsKernelName", "OneRowPerThread"]
 
 
+def calibrate(ctx):
+    """Trusted base: the stat/status renderer.  A real child renames itself
+    (PR_SET_NAME) to a hostile name; the real psutil on the live /proc and the
+    real psutil over simkernel -- built from facts obtained independently of
+    /proc (os.getpid, os.getuid, the name we set, the thread we started) --
+    must give the same answers, and the live stat record must have the shape
+    simkernel renders (52 fields, name between the first '(' and last ')')."""
+    import ctypes
+    import subprocess
+    import time
+    name = b"a) (b \xff"
+    r, wfd = os.pipe()
+    pid = os.fork()
+    if pid == 0:
+        os.close(r)
+        ctypes.CDLL(None).prctl(15, name, 0, 0, 0)
+        import threading
+        threading.Thread(target=time.sleep, args=(30,), daemon=True).start()
+        os.write(wfd, b"x")
+        time.sleep(30)
+        os._exit(0)
+    os.close(wfd)
+    os.read(r, 1)
+    os.close(r)
+    try:
+        live_stat = open("/proc/%d/stat" % pid, "rb").read()
+        code = ("import psutil, json, os; p = psutil.Process(%d); print(json.dumps({'name': list(os.fsencode(p.name())), "
+                "'ppid': p.ppid(), 'status': p.status(), 'uids': list(p.uids()), 'gids': list(p.gids()), "
+                "'num_threads': p.num_threads(), 'nthr': len(p.threads()), 'terminal': p.terminal()}))" % pid)
+        env = dict(os.environ, PYTHONPATH=os.environ["VERIF_SNAPSHOT"])
+        out = subprocess.run(["/venv/bin/python", "-c", code], env=env, capture_output=True, text=True, timeout=60)
+    finally:
+        os.kill(pid, 9)
+        os.waitpid(pid, 0)
+    if out.returncode != 0:
+        ctx.notes.append("calibration skipped: live psutil failed: %s" % out.stderr[-200:])
+        return
+    live = json.loads(out.stdout.strip().splitlines()[-1])
+    body = live_stat[live_stat.rfind(b")") + 2:].split()
+    shape_ok = (len(body) == 50 and live_stat[live_stat.find(b"(") + 1:live_stat.rfind(b")")] == name)
+    st, sim = forkpool.fork_call(_calib_sim, (list(name), os.getpid(), os.getuid(), os.getgid()))
+    if st != "ok":
+        raise core.Machinery("calibration worker failed: %s" % (sim,))
+    live["status"] = "sleeping" if live["status"] in ("sleeping", "running") else live["status"]
+    diff = {k: (live[k], sim[k]) for k in sim if live.get(k) != sim[k]}
+    if diff or not shape_ok:
+        raise core.Machinery("stat/status renderer disagrees with the live kernel: %r (stat shape ok: %s)" % (diff, shape_ok))
+    ctx.cov["calibration"] = {"live_vs_sim_answers_compared": len(sim), "stat_fields_after_name": len(body)}
+
+
+def _calib_sim(job):
+    name, ppid, uid, gid = job
+    w, ps = template()
+    for p in list(w.procs):
+        if p != w.caller_pid:
+            del w.procs[p]
+    p = w.spawn(PID, comm=bytes(name), state="S", ppid=ppid, start=100)
+    p.uids, p.gids = (uid,) * 4, (gid,) * 4
+    p.threads = {PID: Thread(bytes(name), 0, 0), PID + 1: Thread(bytes(name), 0, 0)}
+    pr = ps.Process(PID)
+    return {"name": list(os.fsencode(pr.name())), "ppid": pr.ppid(), "status": pr.status(), "uids": list(pr.uids()),
+            "gids": list(pr.gids()), "num_threads": pr.num_threads(), "nthr": len(pr.threads()), "terminal": pr.terminal()}
+
+
 def warm(ctx):
     c = consts(2)
     rd = tlc.dump_cached("ProcStat", c, view=None)
@@ -205,6 +269,7 @@ def check(ctx):
         "floats are compared with the exact rational ticks/CLK_TCK up to 4 ulp",
         "the 41-field layout lacks delayacct_blkio_ticks (iowait reported as 0.0)",
     ]
+    calibrate(ctx)
     c = consts(3 if thorough else 2)
     evs = functional.observe(ctx, "ProcStat", "inputs", c, invariants=INVS)
     rnd = random.Random(ctx.seed)
